@@ -87,6 +87,13 @@ func VfC16_Subscriptions() {
 	stall := nd.Bool("a-send-is-slow")
 	firstFails := nd.Bool("first-create-fails")
 	slowConnect := !firstFails && !stall && nd.Bool("connect-is-slow") // the first stream is established only after the caller's changes
+	slowReconnect := nd.Param("slowreconnect", 0) == 1
+	if slowReconnect {
+		// the retry timer fires late: a Send of the first stream fails and the remaining changes
+		// arrive while the stream is down; the next stream is established afterwards
+		nd.Assume(maxGen > 0 && !stall && !firstFails && !slowConnect)
+		nd.LazyTimers(true)
+	}
 	connectGo := make(chan struct{})
 	attempts := 0
 	c := &svcDiscoveryClient{
@@ -111,7 +118,7 @@ func VfC16_Subscriptions() {
 		if len(streams) == 0 && stall {
 			s.stallAt = nd.Concrete(nd.IntRange("stallat", 0, 1))
 		}
-		if len(streams) == 0 && !stall && nd.Bool("send-fails") {
+		if len(streams) == 0 && !stall && (slowReconnect || nd.Bool("send-fails")) {
 			s.sendFailsAt = nd.Concrete(nd.IntRange("failat", 0, 1))
 		}
 		streams = append(streams, s)
@@ -149,6 +156,20 @@ func VfC16_Subscriptions() {
 	}()
 	nd.PanicLabel("discovery")
 	nd.Quiesce()
+	if slowReconnect {
+		nd.Quiesce() // time has passed: the retry timer fires, the next stream is established
+		// only the schedules in which the second stream did get established meanwhile are looked
+		// at here (that the client retries at all is the subject of the obligations without the
+		// late timer)
+		if !nd.Symbolic() {
+			for i := 0; i < 10 && len(streams) < 2; i++ { // natively the client retries after about a second
+				nd.Quiesce()
+			}
+			nd.Quiesce()
+		}
+		nd.Assume(len(streams) == 2)
+		nd.Cover("changes-while-down")
+	}
 	if slowConnect {
 		close(connectGo)
 		nd.Quiesce()
